@@ -25,6 +25,7 @@ EXPLANATION = (
     "order of one ordered container and re-attaches them by zipping with another; the two containers must be ordered "
     "by the same key type, otherwise two point labels that share a point value shift every later evaluation. "
     "Correctness of the homomorphic combination itself is not decided.")
+EXPLANATION += (" Shared rule: R5v (every lookup of a claimed value sits in a loop driven by the query set) on the check_combinations anchors.")
 RULE = ("instances = 8 refusal rows + check_combinations anchors x {coefficients, values, proof.evals, coefficient consumed per term} + 1 writer/reader "
         "key-agreement instance")
 
@@ -80,6 +81,9 @@ def run(rep, ctx, tier):
         if ("FIELD", LCOMB, "terms") in g.fwd:
             R1D.run_values(rep, ctx, a, "R1d", role="coefficients", what="coefficient of an equation term",
                            starts=[("FIELD", LCOMB, "terms")])
+        # the claim of every query is looked up under a walk over the query set (shared with C02)
+        from ..rules import visited as R5V
+        R5V.run(rep, ctx, a, "R5v")
         # no coefficient enters the decision only as "the first match" / "the last one" of its kind
         R1D.run_last_value(rep, ctx, a, "R1L")
         from ..rules import overwrite as R5O
